@@ -309,14 +309,16 @@ def duration_gap(ri, ji):
 
 @contract("spowtd.classify:match_storms",
           args={"rain": "array[real]", "head": "array[real]", "rain_threshold": "real", "jump_threshold": "real"},
-          returns="tuple[list[tuple[int,int]],list[tuple[int,int]]]")
+          returns="tuple[list[tuple[int,int]],list[tuple[int,int]]]", ghost_results={"g_raining": "array[bool]"})
 def _match_storms(rain, head, rain_threshold, jump_threshold, result):
     """C01 + C03 at array level: every returned pair is (maximal run of rain > threshold,
     maximal run of increments > threshold) sharing a time step; no storm, no rise twice."""
     requires(len(rain) == len(head))
+    ghost(after="is_raining = rain > rain_threshold", let="g_raining", do=lambda: is_raining)
+    ensures(len(g_raining) == len(rain) and forall(0, len(rain), lambda k: g_raining[k] == (rain[k] > rain_threshold)))
     ensures(len(result[0]) == len(result[1]))
     ensures(forall(0, len(result[0]), lambda q: cand_pair(
-        rain > rain_threshold, head, jump_threshold, result[0][q], result[1][q])))
+        g_raining, head, jump_threshold, result[0][q], result[1][q])))
     ensures(forall(0, len(result[0]), lambda q: forall(q + 1, len(result[0]), lambda r:
             result[0][q][0] != result[0][r][0] and result[1][q][0] != result[1][r][0])))
     # every storm selected for this rise rains on a step of the rise
@@ -479,7 +481,7 @@ def _classify_interstorms(cursor, data_interval, rising_jump_threshold_mm_h):
           args={"cursor": "cursor", "data_interval": "int", "storm_rain_threshold_mm_h": "real",
                 "rising_jump_threshold_mm_h": "real"}, returns="none",
           ghost_results={"g_epoch": "array[int]", "g_zeta": "array[real]", "g_rain": "array[real]", "g_step_h": "real",
-                         "g_ri": "list[tuple[int,int]]", "g_hi": "list[tuple[int,int]]"})
+                         "g_ri": "list[tuple[int,int]]", "g_hi": "list[tuple[int,int]]", "g_raining": "array[bool]"})
 def _match_all_storms(cursor, data_interval, storm_rain_threshold_mm_h, rising_jump_threshold_mm_h):
     """C03 at statement level: the k-th storm row inserted is (epoch[a], epoch[b-1] + step) for a
     maximal run [a, b) of rain above the threshold, the k-th rise row (epoch[a'], 'storm',
@@ -504,7 +506,9 @@ def _match_all_storms(cursor, data_interval, storm_rain_threshold_mm_h, rising_j
     ghost(after="rain_intervals, jump_intervals = match_storms(", let="g_hi", do=lambda: jump_intervals)
     ensures(not db_sealed())
     ensures(len(g_ri) == len(g_hi))
-    ensures(forall(0, len(g_ri), lambda q: cand_pair(g_rain > storm_rain_threshold_mm_h, g_zeta,
+    ensures(len(g_raining) == len(g_rain)
+            and forall(0, len(g_rain), lambda k: g_raining[k] == (g_rain[k] > storm_rain_threshold_mm_h)))
+    ensures(forall(0, len(g_ri), lambda q: cand_pair(g_raining, g_zeta,
                                                       rising_jump_threshold_mm_h * g_step_h, g_ri[q], g_hi[q])))
     ensures(len(db_rows("storm")) == len(db_rows_before("storm")) + len(g_ri))
     ensures(forall(0, len(db_rows_before("storm")), lambda k: db_rows("storm")[k] == db_rows_before("storm")[k]))
@@ -571,3 +575,124 @@ def _classify_intervals(connection, storm_rain_threshold_mm_h, rising_jump_thres
     ensures(db_sealed())
     loop(0, inv=lambda it: not db_sealed() and forall(0, len(db_rows("storm")), lambda k: forall(it, len(data_intervals), lambda j:
          uf_int("label_of", db_rows("storm")[k][0]) != data_intervals[j])))
+
+
+# --------------------------------------------------------------------------- C02, second sentence: storm-optimality
+
+@spec
+def mu_wellformed(old_cand, mu_pos, mu_inv):
+    """mu is a matching given by, for every storm, the position of its partner in the storm's list
+    (-1 = unmatched) and, for every matched rise, its storm."""
+    return (forall_int(lambda s: implies(s in old_cand, s in mu_pos and -1 <= mu_pos[s] and mu_pos[s] < len(old_cand[s])))
+            and forall_int(lambda s: implies(s in old_cand and mu_pos[s] >= 0,
+                                             old_cand[s][mu_pos[s]] in mu_inv and mu_inv[old_cand[s][mu_pos[s]]] == s))
+            and forall_int(lambda j: implies(j in mu_inv, mu_inv[j] in old_cand and mu_pos[mu_inv[j]] >= 0
+                                             and old_cand[mu_inv[j]][mu_pos[mu_inv[j]]] == j)))
+
+
+@spec
+def mu_stable(old_cand, prefs, mu_pos, mu_inv):
+    """No candidate pair blocks mu (storm side: a later list position is strictly better)."""
+    return forall_int(lambda s, k: implies(
+        s in old_cand and 0 <= k and k < len(old_cand[s]) and k != mu_pos[s],
+        not (k > mu_pos[s] and (old_cand[s][k] not in mu_inv
+                                or prefs[old_cand[s][k]][s] > prefs[old_cand[s][k]][mu_inv[old_cand[s][k]]]))))
+
+
+@contract("spowtd.classify:find_stable_matching#optimal",
+          args={"storm_candidates": "dict[int,list[int]]", "jump_preferences": "dict[int,dict[int,real]]"},
+          returns="dict[int,int]", logical={"mu_pos": "dict[int,int]", "mu_inv": "dict[int,int]"})
+def _find_stable_matching_optimal(storm_candidates, jump_preferences, result):
+    """C02, second sentence: when no rise ranks two storms equally, every storm gets a rise at least as
+    good (by its own list) as in ANY stable matching mu — so the result is the storm-optimal stable
+    matching, hence unique and independent of the order in which set.pop() serves the storms.
+    mu_pos / mu_inv are logical variables: an arbitrary well-formed stable matching."""
+    requires(forall_int(lambda s, k, k2: implies(
+        s in storm_candidates and 0 <= k and k < k2 and k2 < len(storm_candidates[s]),
+        storm_candidates[s][k] != storm_candidates[s][k2])))
+    requires(forall_int(lambda s, k: implies(
+        s in storm_candidates and 0 <= k and k < len(storm_candidates[s]),
+        storm_candidates[s][k] in jump_preferences and s in jump_preferences[storm_candidates[s][k]])))
+    # strict preferences of the rises (no ties)
+    requires(forall_int(lambda j, s, s2: implies(
+        j in jump_preferences and s in jump_preferences[j] and s2 in jump_preferences[j] and s != s2,
+        jump_preferences[j][s] != jump_preferences[j][s2])))
+    requires(mu_wellformed(storm_candidates, mu_pos, mu_inv))
+    requires(mu_stable(storm_candidates, jump_preferences, mu_pos, mu_inv))
+    modifies("storm_candidates")
+    ensures(forall_int(lambda s: implies(
+        s in old(storm_candidates),
+        implies(gs_matched(storm_candidates, old(storm_candidates), result, s), mu_pos[s] <= len(storm_candidates[s]))
+        and implies(not gs_matched(storm_candidates, old(storm_candidates), result, s), mu_pos[s] == -1))))
+    loop(0, types={"matches": "dict[int,int]"}, inv=lambda:
+         forall_int(lambda s: (s in storm_candidates) == (s in old(storm_candidates)))
+         and forall_int(lambda s, k: implies(
+             s in storm_candidates,
+             len(storm_candidates[s]) <= len(old(storm_candidates)[s])
+             and implies(0 <= k and k < len(storm_candidates[s]),
+                         storm_candidates[s][k] == old(storm_candidates)[s][k])))
+         and forall_int(lambda s: implies(s in matchable_storms, s in storm_candidates and len(storm_candidates[s]) > 0))
+         and forall_int(lambda j: implies(
+             j in matches,
+             matches[j] in storm_candidates and matches[j] not in matchable_storms
+             and len(storm_candidates[matches[j]]) < len(old(storm_candidates)[matches[j]])
+             and old(storm_candidates)[matches[j]][len(storm_candidates[matches[j]])] == j))
+         and forall_int(lambda s, k: implies(
+             s in storm_candidates and len(storm_candidates[s]) <= k and k < len(old(storm_candidates)[s]),
+             old(storm_candidates)[s][k] in matches
+             and jump_preferences[old(storm_candidates)[s][k]][matches[old(storm_candidates)[s][k]]]
+             >= jump_preferences[old(storm_candidates)[s][k]][s]))
+         and forall_int(lambda s: implies(
+             s in storm_candidates,
+             s in matchable_storms or len(storm_candidates[s]) == 0
+             or gs_matched(storm_candidates, old(storm_candidates), matches, s)))
+         # optimality invariant: no storm has been rejected by (or displaced from) its mu-partner
+         and forall_int(lambda s, k: implies(
+             s in storm_candidates and len(storm_candidates[s]) <= k and k < len(old(storm_candidates)[s])
+             and not (old(storm_candidates)[s][k] in matches and matches[old(storm_candidates)[s][k]] == s),
+             mu_pos[s] != k)))
+
+
+# --------------------------------------------------------------------------- C07: independence of the time origin
+
+@contract("spowtd.classify:classify_interstorms#uf_rounding", db=True, float_mode="uf",
+          args={"cursor": "cursor", "data_interval": "int", "rising_jump_threshold_mm_h": "real"}, returns="none",
+          ghost_results={"g_epoch": "array[int]", "g_zeta": "array[real]", "g_rain": "array[bool]"})
+def _classify_interstorms_uf(cursor, data_interval, rising_jump_threshold_mm_h):
+    """C07, rounding half: with every floating-point operation read as an UNINTERPRETED deterministic
+    function of its operands (so nothing is assumed about rounding), the rise flag of sample i is
+    exactly flag_jump evaluated the same way: a function of the integer difference
+    epoch[i] - epoch[i-1] (exact), the two levels and the threshold."""
+    requires(not db_sealed())
+    requires(rising_jump_threshold_mm_h > 0)
+    modifies("__db__")
+    ghost(after="epoch, zeta_mm, is_raining = ", let="g_epoch", do=lambda: epoch)
+    ghost(after="epoch, zeta_mm, is_raining = ", let="g_zeta", do=lambda: zeta_mm)
+    ghost(after="is_raining = is_raining.astype(bool)", let="g_rain", do=lambda: is_raining)
+    ensures(len(db_rows("grid_time_flags")) == len(db_rows_before("grid_time_flags")) + len(g_epoch))
+    ensures(forall(0, len(g_epoch), lambda i:
+            db_rows("grid_time_flags")[len(db_rows_before("grid_time_flags")) + i][0] == g_epoch[i]
+            and db_rows("grid_time_flags")[len(db_rows_before("grid_time_flags")) + i][1]
+            == (1 if flag_jump(g_epoch, g_zeta, rising_jump_threshold_mm_h, i) else 0)))
+    loop(0, inv=lambda it: not db_sealed() and db_rows("grid_time_flags") == g_flags)
+    ghost(after="masks = get_true_interval_masks(", let="g_flags", do=lambda: db_rows("grid_time_flags"))
+
+
+@lemma(args={"epoch": "array[int]", "epoch2": "array[int]", "zeta": "array[real]", "rain": "array[bool]", "thr": "real", "c": "int"},
+       float_mode="uf")
+def origin_independence(epoch, epoch2, zeta, rain, thr, c):
+    """C07 over the contracts of classify_interstorms: shifting every epoch by the same integer c
+    leaves the rise, unexplained-rise and interstorm flags unchanged — proved with uninterpreted
+    rounding, i.e. for whatever the floating-point unit does, because the absolute epoch reaches
+    floating-point operations only through exact integer differences."""
+    requires(len(epoch2) == len(epoch) and forall(0, len(epoch), lambda i: epoch2[i] == epoch[i] + c))
+    ensures(forall(0, len(epoch), lambda i: flag_jump(epoch2, zeta, thr, i) == flag_jump(epoch, zeta, thr, i)))
+    ensures(forall(0, len(epoch), lambda i: flag_settled(epoch2, zeta, rain, thr, i) == flag_settled(epoch, zeta, rain, thr, i)))
+    ensures(forall(0, len(epoch), lambda i: is_inter(epoch2, zeta, rain, thr, i) == is_inter(epoch, zeta, rain, thr, i)))
+    cut(forall(0, len(epoch), lambda i: flag_jump(epoch2, zeta, thr, i) == flag_jump(epoch, zeta, thr, i)))
+
+
+@native_ghosts("spowtd.classify:match_storms")
+def _ng_match_storms(rain, head, rain_threshold, jump_threshold, result=None):
+    import numpy as np
+    return {"g_raining": np.asarray(rain) > rain_threshold}
